@@ -19,7 +19,10 @@ EXPLANATION = (
     "exactly the even-length accepted words; braid moves and ss-deletions preserve wordProd in Mathlib's "
     "CoxeterSystem and the executable certificate checker is sound, so a shortening move sequence certifies "
     "non-reducedness (discrepancies are replayed with a Lean-checked certificate). "
-    "NOT PROVED (bounded TEST only): accepted <=> reduced, shortlex uniqueness/minimality, growth series, "
+    "RANK 2 PROVED: accepted <=> reduced and shortlex = one lexicographically least word per element, for every m >= 2 "
+    "and m = inf at the automaton level (hypothesis DihedralNb on the small-root table), end to end incl. findSmallRoots "
+    "for m in {2,3,inf}. "
+    "NOT PROVED for rank >= 3 (bounded TEST only): accepted <=> reduced, shortlex uniqueness/minimality, growth series, "
     "injectivity of the canonical images. The test compares the implementation's automata, for all words up to "
     "length L, with an independent Tits braid-move solver cross-checked against enumeration of the canonical "
     "representation. Correspondence: Python automaton == Lean model automaton up to BFS renumbering.")
@@ -498,6 +501,18 @@ def run_lang(inp):
         mine = {"".join(names[k] for k in w) for w in A_lex}
         if lib != mine:
             bad["enumerate_words"] = sorted(lib ^ mine)[:3]
+        if done:
+            libe = set(evs[1].enumerate_words((L - L % 2) // 2))
+            minee = {"".join(names[k] for k in w) for w in A_lex if len(w) % 2 == 0}
+            if libe != minee:
+                bad["enumerate_words_even"] = sorted(libe ^ minee)[:3]
+    # FSA.accepts on every word up to length 4 (letters passed as a list of generator names)
+    for l in range(min(L, 4) + 1):
+        for w in itertools.product(range(n), repeat=l):
+            if geo.accepts([names[k] for k in w]) != (w in reduced) or lex.accepts([names[k] for k in w]) != (w in nf):
+                bad.setdefault("accepts", []).append(list(w))
+    if "accepts" in bad:
+        bad["accepts"] = bad["accepts"][:3]
     growth_lex = [sum(1 for w in A_lex if len(w) == l) for l in range(L + 1)]
     # cross-check with the canonical representation: Cayley ball by matrix enumeration, float keys
     can = G.canonical_representation()
@@ -561,7 +576,7 @@ def judge_lang(inp, obs, lr):
     if obs["bad"]:
         if lr:
             obs["bad"]["geodesic"]["certificate"]["lean_checkCert"] = lr[0]
-        pref = ["geodesic", "shortlex", "even", "growth", "injective", "length", "enumerate_words", "defaults", "api_image"]
+        pref = ["geodesic", "shortlex", "even", "growth", "injective", "length", "accepts", "enumerate_words", "enumerate_words_even", "defaults", "api_image"]
         what = sorted(obs["bad"], key=lambda k: pref.index(k) if k in pref else 99)[0]
         return {"expected": {"geodesic": "accepted words = reduced words", "shortlex": "accepted = least reduced expression of each element",
                              "even": "even automaton = even-length accepted words", "growth": "counts = growth series",
